@@ -55,10 +55,12 @@ TIERS = {
     # ld_cap: maximum number of GNU ld links of the main round (a cap that is hit is reported).
     "quick": dict(L=5, PL=3, T=4, PT=3, Q=(1, 1), K=(2, 2), ld_cap=1800, validate=40,
                   ld_class={"single": "set", "pair": "set", "keep": "set", "file": "set"}),
-    # thin5: of the 59,049 five-token strings only those with at most two non-literal tokens are
-    # kept (12,393); every shorter string and every prefixed string is kept.
-    "thorough": dict(L=6, PL=4, T=5, PT=4, Q=(2, 1), K=(3, 3), ld_cap=9000, validate=100, thin5=2,
-                     ld_class={"single": "fine4", "pair": "set", "keep": "set", "file": "set"}),
+    # thin5: of the 59,049 five-token strings only those with at most ONE non-literal token are
+    # kept (2,673); every shorter string and every prefixed string (<= 4 tokens behind `.tx.`) is
+    # kept. Measured cost forced this: a wild link over the 5,781-name object costs ~4x the quick
+    # tier's, a GNU ld link ~5x.
+    "thorough": dict(L=6, PL=4, T=5, PT=4, Q=(2, 1), K=(2, 2), ld_cap=6000, validate=60, thin5=1,
+                     ld_class={"single": "set", "pair": "kinds", "keep": "set", "file": "set"}),
 }
 
 # --------------------------------------------------------------------------------------------
@@ -139,6 +141,9 @@ def pclass(toks, mode):
         return sig(toks)
     if mode == "set":
         return "s:" + set_class(toks)
+    if mode == "kinds":
+        c = set_class(toks).split("/")
+        return "k:" + c[1] + "/" + c[3] + ("/short" if len(text(toks)) < 4 else "")
     return "w:" + window_class(toks)
 
 
@@ -611,10 +616,10 @@ def main():
                     bykey.setdefault(v[0], []).append(i)
             need = []
             for key, idxs in bykey.items():
-                if not any((i, "wild") in LD for i in idxs):
-                    cand = [i for i in idxs if (i, "ld") in LD] + \
-                           [i for i in idxs if (i, "ld") not in LD]
-                    need += [(i, "wild") for i in cand[:6] if i not in tried]
+                # the lowest-numbered (simplest) member of the key is the one to be written out
+                lo = min(idxs)
+                if (lo, "wild") not in LD and lo not in tried:
+                    need.append((lo, "wild"))
             if not need:
                 break
             tried.update(i for i, _s in need)
@@ -636,8 +641,7 @@ def main():
         # ---- report
         for key in sorted(bykey):
             idxs = bykey[key]
-            confirmed = [i for i in idxs if (i, "wild") in LD]
-            first = confirmed[0]
+            first = min(i for i in idxs if (i, "wild") in LD)
             for i in [first] + [j for j in idxs if j != first]:
                 m = members[i]
                 rc, msg, got, exp = W[i]
